@@ -319,6 +319,80 @@ def _native_collision(pipeline):
   return {'reproduced': False, 'worst': worst}
 
 
+def spring_rest(kind):
+  """first law, spring 1-dof kernel: at a pose produced by forward (C08 round-trip lemma: j.pos = 0, j.rot = (C, a S) for a hinge; j.pos = a q, j.rot = id for a slide),
+  with jd = 0, tau = 0 and no limit reached, the joint force is exactly zero"""
+  def run():
+    from verif.engine.opaque import cut
+    from brax.spring import joints
+    from brax.base import Link, DoF, Transform, Motion, Inertia
+    from verif.engine.alg import RingAlg
+    from verif.contracts.common import ring_equal
+    from verif.specs import sx
+    from verif.specs.sx import X
+    from fractions import Fraction as F
+    A = RingAlg()
+    p = A.arr('fr', (4,))
+    A.unit(list(p))
+    R = sx.qmat([X(e, A) for e in p])
+    a, b, c = [[R[r][k].v for r in range(3)] for k in range(3)]          # every orthonormal completion of the axis
+    q = A.var('q')
+    C, S = A.trig_pair(A.mul(F(1, 2), q))
+    ks, kv, kl, ka = [A.var(n) for n in ('ks', 'kv', 'kl', 'ka')]
+    z = jp.zeros(())
+    T0 = Transform(pos=jp.zeros(3), rot=jp.array([1.0, 0, 0, 0]))
+    link = Link(transform=T0, joint=T0, inertia=Inertia(transform=T0, i=jp.eye(3), mass=jp.ones(())), invweight=z, constraint_stiffness=Sym(ks), constraint_vel_damping=Sym(kv),
+                constraint_limit_stiffness=Sym(kl), constraint_ang_damping=Sym(ka))
+    if kind == 'h':
+      ang, vel = np.array([a], dtype=object), np.zeros((1, 3), dtype=object)
+      jpos, jrot = np.array([0, 0, 0], dtype=object), np.array([C] + [A.mul(e, S) for e in a], dtype=object)
+    else:
+      ang, vel = np.zeros((1, 3), dtype=object), np.array([a], dtype=object)
+      jpos, jrot = np.array([A.mul(e, q) for e in a], dtype=object), np.array([1, 0, 0, 0], dtype=object)
+    dof = DoF(motion=Motion(ang=Sym(ang), vel=Sym(vel)), armature=jp.zeros(1), stiffness=jp.zeros(1), damping=jp.zeros(1), limit=None, invweight=jp.zeros(1), solver_params=jp.zeros((1, 7)))
+    A.hint_or([(e, 'ne', 0) for e in a], True, 'a unit axis has a non-zero component')
+
+    def h_frame(I, P, ins):
+      # link_to_joint_frame contract (1-dof): ang frame = (a, b, c) completing a hinge axis (identity for a zero axis); vel frame likewise; parity 1
+      eye = np.array([[1, 0, 0], [0, 1, 0], [0, 0, 1]], dtype=object)
+      fr = np.array([a, b, c], dtype=object)
+      out_ang = fr if kind == 'h' else eye
+      out_vel = fr if kind == 's' else eye
+      par = np.empty((), dtype=object)
+      par[()] = 1
+      return [out_ang, out_vel, par]
+    with cut('brax.kinematics:link_to_joint_frame', 'brax.kinematics:axis_angle_ang'):
+      I = Interp(A, cuts={'brax.kinematics:link_to_joint_frame': h_frame})
+      f = sym_call(I, joints._one_dof, link, Transform(pos=Sym(jpos), rot=Sym(jrot)), Motion(ang=jp.zeros(3), vel=jp.zeros(3)), dof, jp.zeros(1))
+    r = combine([ring_equal(A, f.vel, np.zeros(3, dtype=object), name='force'), ring_equal(A, f.ang, np.zeros(3, dtype=object), name='torque')])
+    if r.verdict == REFUTED:
+      rb_ = _rest_case(np.random.RandomState(0), 6)
+      r.replay = {'reproduced': bool(rb_), **(rb_ or {})}
+    return r
+  return Obligation('C04/spring._one_dof/rest[%s]' % kind, 'brax.spring.joints:_one_dof', 'at rest (jd = 0, tau = 0, no limit) in ANY joint configuration q reachable by forward kinematics '
+                    '(j = pure rotation about / translation along the axis), the joint constraint force and torque are exactly zero -- for every stiffness, damping, axis and frame completion', run,
+                    backend='ring', budget=300)
+
+
+def generalized_rest():
+  def run():
+    from brax.generalized import dynamics
+    from brax.base import Motion
+    from verif.engine.alg import RingAlg
+    from verif.contracts.common import ring_equal, Stub
+    from verif.contracts import C02
+    A = RingAlg()
+    sys = C02._forest_sys([-1, 0, 0], '112')
+    n, nv = sys.num_links(), sys.qd_size()
+    cinr, fm, ii, m = C02.sym_inertia(A, n)
+    st = Stub(cinr=cinr, cdof=Motion(ang=Sym(A.arr('da', (nv, 3))), vel=Sym(A.arr('dv', (nv, 3)))), cdofd=Motion(ang=Sym(A.arr('dda', (nv, 3))), vel=Sym(A.arr('ddv', (nv, 3)))),
+              cd=Motion(ang=jp.zeros((n, 3)), vel=jp.zeros((n, 3))), qd=jp.zeros(nv))
+    tau = sym_call(Interp(A), dynamics.inverse, sys.replace(gravity=jp.zeros(3)), st)
+    return ring_equal(A, np.asarray(tau, dtype=object), np.zeros(nv, dtype=object), name='bias at rest')
+  return Obligation('C04/generalized.dynamics.inverse/rest', 'brax.generalized.dynamics:inverse', 'qd = 0 (so cd = 0) and no gravity: the bias force is exactly zero for every configuration (symbolic inertias and dof axes), '
+                    'so with zero passive force and control qf_smooth = 0 and the system stays at rest', run, backend='ring', budget=200)
+
+
 def bounded(tier):
   def run():
     import importlib
@@ -394,7 +468,7 @@ def obligations(tier):
     obs.append(step_momentum('positional', name, Q))
   obs.append(step_momentum('spring', 'f-(h-hhh,s)', Th))
   obs.append(step_momentum('positional', 'f-h-hh', Th))
-  obs += [collision_pair('spring', 1, Q), collision_pair('spring', 2, Q), collision_pair('positional', 1, Q), collision_pair('positional', 2, Th), bounded(tier)]
+  obs += [collision_pair('spring', 1, Q), collision_pair('spring', 2, Q), collision_pair('positional', 1, Q), collision_pair('positional', 2, Th), spring_rest('h'), spring_rest('s'), generalized_rest(), bounded(tier)]
 
   def canary():
     # claiming ANGULAR momentum-free internal torques about the origin without lever arms must be refuted
